@@ -195,7 +195,14 @@ where
     fn format_response_data(&self, formatter: &mut dyn Formatter) -> Result<()> {
         let mnemonic = self.mnemonic();
         let short_form = mnemonic.split(|c| !c.is_ascii_uppercase()).next().unwrap();
-        formatter.push_str(short_form)
+        formatter.push_str(short_form)?;
+        // Keep the numeric suffix, `ASCii2` is `ASC2` and not `ASC` (which selects `ASCii1`)
+        let suffix_len = mnemonic
+            .iter()
+            .rev()
+            .take_while(|c| c.is_ascii_digit())
+            .count();
+        formatter.push_str(&mnemonic[mnemonic.len() - suffix_len..])
     }
 }
 
